@@ -113,7 +113,7 @@ MergedStats(f) ==
         freqs == SumSeq([k \in DOMAIN ts |->
                     IF "FreqFromCard" \in Dev THEN Len(MergedPostings(f, ts[k]))
                     ELSE SumSeq([j \in DOMAIN MergedPostings(f, ts[k]) |-> MergedPostings(f, ts[k])[j].freq])])
-    IN [total |-> NewDocCount, docs |-> Cardinality(docsOf), sumttf |-> freqs]
+    IN [total |-> NewDocCount, docs |-> Cardinality(docsOf), sumttf |-> ToBig(freqs)]
 
 \* buildMergedDocVals: values of new document k in field f
 SourceOf(k) ==      \* <<segment, old number>> of new document k
